@@ -7,7 +7,8 @@ CONSTANTS MIds, MVoters, MLearners, PreVoteOn, CheckQuorumOn,
           MaxTerm, MaxLog, MaxNet, MaxCrashes, MaxProposals, MaxDepth,
           AllowDrop, AllowDup, AllowAsync, AllowCrash, PrintReplay, Fine,
           EagerReady, QuiescentTicks, MaxLeaderTicks, TickNodes, MaxDrops,
-          MaxTransfers, TransferTargets, MaxConf, ConfMenuIds, MaxReads, LazyApply, AllowCompact, ProposeAnywhere
+          MaxTransfers, TransferTargets, MaxConf, ConfMenuIds, MaxReads, LazyApply, AllowCompact, ProposeAnywhere,
+          TargetPreds
 
 K0 == [election_tick |-> 3, heartbeat_tick |-> 1, max_size_per_msg |-> NoLimit, max_inflight |-> 2,
        check_quorum |-> CheckQuorumOn, pre_vote |-> PreVoteOn, skip_bcast_commit |-> FALSE, batch_append |-> FALSE,
@@ -83,8 +84,10 @@ Next ==
 
 Spec == Init /\ [][Next]_vars
 
+(* a state is a hit when a predicate failed on the way to it (any predicate, or one of TargetPreds) *)
+Hit == IF TargetPreds = {} THEN bad # {} ELSE bad \cap TargetPreds # {}
 Bound ==
-    /\ bad = {}
+    /\ ~Hit
     /\ Len(h) <= MaxDepth
     /\ BagCardinality(net) <= MaxNet
     /\ \A i \in Ids : up[i] => /\ node[i].term <= MaxTerm
@@ -93,7 +96,7 @@ Bound ==
 View == <<node, up, stor, dur, app, net, rdi, gh, bad>>
 
 (* evaluated once per distinct state *)
-Judge == bad = {} \/ PrintT(ToJson([k |-> "MCVIOL", bad |-> bad, h |-> h]))
-NoBad == bad = {}
+Judge == ~Hit \/ PrintT(ToJson([k |-> "MCVIOL", bad |-> bad, h |-> h]))
+NoBad == ~Hit
 Replay == ~PrintReplay \/ PrintT(ToJson([k |-> "REPLAY", h |-> h]))
 =============================================================================
